@@ -63,6 +63,9 @@ def scenario(spec, prefix, n_events, restart_before, crash_at, torn, wd, buffere
     ch = Chooser(prefix)
     run = l1.L1Run(spec, ch, wd, [])
     run.start()
+    if getattr(spec, "bump", None):
+        # a long-running simulation: new paths get numbers with several digits
+        run.state.config["current"]["traj_num"] = spec.bump
     for k in range(n_events - 1):
         run.event()
         if restart_before and k == 0:
@@ -173,7 +176,9 @@ def scenario(spec, prefix, n_events, restart_before, crash_at, torn, wd, buffere
     rows = read_rows(run)
     live = run.state.live_paths()
     tn = run.state.config["current"]["traj_num"]
-    replaced = sorted(set(range(tn)) - set(live))
+    bump = getattr(spec, "bump", None)
+    ever = set(range(tn)) if not bump else (set(range(run.state.n - 1)) | set(range(bump, tn)))
+    replaced = sorted(ever - set(live))
     dup = sorted({r for r in rows if rows.count(r) > 1})
     if dup:
         out.append(("row-twice", f"paths {dup} are in the data file more than once"))
@@ -201,6 +206,8 @@ def histories(spec, n_events, restart_before, wd):
     def fn(ch):
         run = l1.L1Run(spec, ch, wd, [])
         run.start()
+        if getattr(spec, "bump", None):
+            run.state.config["current"]["traj_num"] = spec.bump
         for k in range(n_events):
             run.event()
             if restart_before and k == 0:
@@ -226,6 +233,7 @@ def _job(args):
     W, delete_old, delete_all, n_events, restart_before, torn_set, hist_slice, per_label = args[:8]
     B = args[8] if len(args) > 8 else 3
     spec = mkspec(W, delete_old, delete_all, B)
+    spec.bump = args[9] if len(args) > 9 else None
     wd = os.path.join(scratch.mkdtemp("c08"), "run")
     old = os.getcwd()
     viols = {}
@@ -255,6 +263,8 @@ def _job(args):
                 variants = [None]
                 if kind in ("write", "flush"):
                     variants = [None] + list(torn_set)
+                    if rel.startswith("infretis_data") and "3" not in torn_set:
+                        variants.append("3")  # a data row cut inside its first field (the path number)
                 for torn in variants:
                     n += 1
                     r = scenario(spec, base["choices"], n_events, restart_before, k, torn, wd, buffered=buffered)
@@ -262,7 +272,7 @@ def _job(args):
                     for clause, msg in r["violations"]:
                         sig = f"{clause}@{window(kind, rel, site)}"
                         viols.setdefault(sig, (f"{'buffered' if buffered else 'unbuffered'} writes, crash after effect #{k} {(kind, rel, site)} torn={torn}: {msg}",
-                                               dict(args=list(args[:5]), B=B, prefix=base["choices"], k=k, torn=torn, buffered=buffered)))
+                                               dict(args=list(args[:5]), B=B, bump=spec.bump, prefix=base["choices"], k=k, torn=torn, buffered=buffered)))
                     # the restart had effects of its own (it repaired something): die in the middle of each
                     # (once per distinct tree the first crash left behind: the dead process has no other state)
                     tkey = (buffered, r.get("tree"))
@@ -278,7 +288,7 @@ def _job(args):
                                 sig = f"{clause}@recovery:{window(kind2, rel2, site2)}"
                                 viols.setdefault(sig, (f"{'buffered' if buffered else 'unbuffered'} writes, crash after effect #{k} {(kind, rel, site)} torn={torn}, "
                                                        f"then a second crash during the restart after its effect #{k2} {(kind2, rel2, site2)} torn={torn2}: {msg}",
-                                                       dict(args=list(args[:5]), B=B, prefix=base["choices"], k=k, torn=torn, buffered=buffered, crash2=[k2, torn2])))
+                                                       dict(args=list(args[:5]), B=B, bump=spec.bump, prefix=base["choices"], k=k, torn=torn, buffered=buffered, crash2=[k2, torn2])))
     finally:
         os.chdir(old)
         l1.deactivate()
@@ -338,6 +348,8 @@ def run(ctx):
                     continue
                 for sl in range(nsl):
                     jobs.append((W, delete_old, delete_all, n_events, restart_before, torn, (sl, nsl), per_label))
+    # path numbers with several digits (a simulation that has been running for a while)
+    jobs.append((1, False, False, 2, False, torn, (0, 1 if not ctx.quick else 2), per_label, 3, 97))
     # the smallest system (two interfaces: [0-] and [0+] only), where the deletion lag is one step
     jobs.append((1, True, True, 3, False, torn, (0, 1), per_label, 2))
     jobs.append((1, True, False, 4, False, torn, (0, 2 if ctx.quick else 1), per_label, 2))
@@ -396,6 +408,7 @@ def replay(data):
         return [(sig, msg) for sig, (msg, _) in viols.items()]
     W, delete_old, delete_all, n_events, restart_before = data["args"]
     spec = mkspec(W, delete_old, delete_all, data.get("B", 3))
+    spec.bump = data.get("bump")
     wd = os.path.join(scratch.mkdtemp("c08r"), "run")
     old = os.getcwd()
     try:
